@@ -4,7 +4,11 @@ M: Futures.tla (implementation-shaped model of Order/Position/FuturesExchange/Or
 R: every transition of a small instance, with a shortest witness history, replayed on the real objects; TLC
    (TraceFutures.tla) re-applies the model's effect to the state logged before the call and compares.
 T: long random legal histories (30-60 operations, 1-2 symbols on one wallet, six leverages, three fee rates)
-   recorded from the real objects and validated by TLC step by step from the initial state."""
+   recorded from the real objects and validated by TLC step by step from the initial state; decimal histories of
+   100-300 operations (prices with cents, 3-decimal quantities, fee 0.0004/0.00075/0.001, leverage up to 125, 2-3
+   symbols, cross and isolated) judged by step relations on scaled integers (TraceFuturesDec.tla), rejection judged
+   exactly (also at equality) where the float arithmetic is exact.
+V: real research.backtest runs with every order call judged from the state observed before it."""
 import random, json
 from .. import tlc
 from ..core import Machinery
@@ -31,8 +35,10 @@ META = dict(
          "accept/reject decision from the logged pre-state. Bounded (depth, lattice); not a proof.",
     note="Trusted: TLC, the encoder (floats -> nearest small rational), the object-level session (a stub strategy that "
          "cancels what rests when the position closes, as the quantifier says), process-state hygiene between sessions. "
-         "Integer quantities and prices, fees 0, 1/16, 1/64; |position| <= 6 in random histories so that TLC's 32-bit "
-         "rationals do not overflow. A margin comparison between equal non-dyadic values is not judged (counted).",
+         "Exact traces: integer prices, quantities 1/2/3 or 0.1/0.2/0.3, fees 0, 1/16, 1/64, |position| <= 6 (32-bit "
+         "rationals). Decimal traces: scaled integers with per-step tolerances derived from the coefficients; a margin "
+         "comparison inside the tolerance band is not judged (counted) unless all values are binary-exact. Liquidation "
+         "is not part of object-level sessions (C09).",
     design_ref="4/C03")
 
 
@@ -49,9 +55,9 @@ def m_instances(ctx):
 
 def r_instances(ctx):
     base = dict(syms=["A"], qtys=[1, 2], prices=[8, 12], lev=2, fee=(1, 16), start=30, maxact=3, dups=False, coc=True)
-    q = [dict(base, depth=3, maxord=3, maxact=2), dict(base, qtys=[2], depth=4, maxord=4, maxact=2)]
+    q = [dict(base, depth=3, maxord=3, maxact=2), dict(base, qtys=[2], depth=4, maxord=4, maxact=2, mode="isolated")]
     t = [dict(base, depth=4, maxord=4),
-         dict(base, syms=["A", "B"], qtys=[1], lev=4, start=14, depth=3, maxord=3),
+         dict(base, syms=["A", "B"], qtys=[1], lev=4, start=14, depth=3, maxord=3, mode="isolated"),
          dict(base, qtys=[1, 3], prices=[8, 10, 12], lev=1, fee=(0, 1), start=60, depth=3, maxord=3, maxact=2)]
     return ctx.pick(q, t)
 
@@ -73,7 +79,10 @@ def t_specs(ctx, rng, first_id, dups=0.0):
         # account is homogeneous in the quantity scale, so TLC sees quantity x 10 and money x 10)
         qd = 10 if i % 3 == 2 else 1
         hdr = {"syms": syms, "FeeNum": fee[0], "FeeDen": fee[1], "Lev": lev, "Start": rng.choice([60, 100, 200]) // qd,
-               "CancelOnClose": True, "cur0": {s: rng.choice([8, 10, 12]) for s in syms}, "QD": qd}
+               "CancelOnClose": True, "cur0": {s: rng.choice([8, 10, 12]) for s in syms}, "QD": qd,
+               # margin formula and rejection do not depend on the leverage mode (FuturesExchange.available_margin never
+               # reads it); liquidation is the simulator's business (C09): the same account equations must hold
+               "mode": "isolated" if i % 2 else "cross"}
         specs.append((first_id + i, hdr, rng.randrange(10 ** 9), rng.randint(30, 60), dups))
     return specs
 
@@ -83,7 +92,8 @@ def run(ctx):
     ctx.assumptions += [
         "object-level sessions: real Order/Position/FuturesExchange/OrdersState/ClosedTrades/Sandbox objects, the "
         "position's strategy is a stub that cancels everything resting when the position closes (quantifier of C03)",
-        "exact lattice: integer prices, quantities 1/2/3 or 0.1/0.2/0.3 (logged x 10), fee in {0, 1/16, 1/64}; cross margin mode",
+        "exact lattice: integer prices, quantities 1/2/3 or 0.1/0.2/0.3 (logged x 10), fee in {0, 1/16, 1/64}; cross and "
+        "isolated leverage mode at object level (liquidation is not part of these sessions: C09)",
         "random histories keep |position| + resting same-side quantity <= 6 and entry denominators dividing 60 "
         "(32-bit rationals in TLC); at most 7 simultaneously resting orders per symbol"]
     samples = []
@@ -126,13 +136,25 @@ def run(ctx):
     ctx.log("T: %d random histories, %d events" % (len(ttr), sum(len(t["ev"]) for t in ttr)))
     # ---------------------------------------------------------------- V: real backtests (real Strategy, both simulators)
     from ..drivers import acct_vivo
-    vtr = acct_vivo.run_many(acct_vivo.specs(KIND, ctx.pick(6, 120), ctx.seed, first_id=tid + len(specs) + 1))
+    vtr = acct_vivo.run_many(acct_vivo.specs(KIND, ctx.pick(6, 120), ctx.seed, first_id=tid + len(specs) + 1,
+                                                minutes=ctx.pick((60, 90), (120, 180))))
     traces += vtr
     ctx.log("V: %d backtests, %d order events" % (len(vtr), sum(len(t["ev"]) for t in vtr)))
     # ---------------------------------------------------------------- TLC decides
     verdicts, results, knife = acct.validate(KIND, traces, ctx.scratch, parts_total=ctx.pick(10, 14), proj="acct")
     bad, named = acct.report(ctx, PID, KIND, traces, verdicts, "acct", "R/T",
                              hist_of=lambda t: hists.get(t["id"]))
+    # ---------------------------------------------------------------- T decimal lattice (step relations, scaled integers)
+    from ..drivers import acct_fdec
+    dtr = acct_fdec.histories(ctx.pick(10, 260), ctx.pick(60, 1500), ctx.seed, first_id=len(traces) + 1)
+    dverd, dres, dknife, (dexact, dexacteq) = acct_fdec.validate(dtr, ctx.scratch)
+    dbad = acct_fdec.report(ctx, PID, dtr, dverd)
+    ctx.log("T decimal: %d histories, %d events, %d rejected; %d knife-edge, %d exact-zone submissions (%d at equality)" % (
+        len(dtr), sum(len(t["ev"]) for t in dtr), dbad, dknife, dexact, dexacteq))
+    for t in dtr:
+        w = acct.word(t)
+        if "X" in w and ("C" in w or "!" in w):
+            ctx.nontrivial.add(json.dumps(["dec", t["hdr"]["lev"], t["hdr"]["fee_u"], t["seed"]]))
     kinds = {}
     for t in traces:
         for k in acct.fill_kinds(KIND, t):
@@ -146,11 +168,20 @@ def run(ctx):
                             "ops": hists[t["id"]], "logged_post": t["ev"][-1].get("post")})
     if ttr:
         samples.append({"kind": "T: random history (first 10 operations)", "hdr": ttr[0]["hdr"], "ops": acct.ops_of(ttr[0])[:10]})
-    ctx.evaluations = len(traces)
+    if dtr:
+        longest = max(dtr, key=lambda t: len(t["ev"]))
+        samples.append({"kind": "T decimal: longest history of this run (first 8 events as logged, scaled integers)",
+                        "hdr": longest["hdr"], "operations": len(longest["ev"]), "ev": longest["ev"][:8]})
+    ctx.evaluations = len(traces) + len(dtr)
     ctx.coverage.update({
-        "traces_validated_against_impl": len(traces), "transitions_replayed": n_r, "random_histories": len(ttr),
+        "traces_validated_against_impl": len(traces) + len(dtr), "transitions_replayed": n_r, "random_histories": len(ttr),
+        "decimal_histories": len(dtr), "decimal_events": sum(len(t["ev"]) for t in dtr),
+        "decimal_longest_history": max([len(t["ev"]) for t in dtr] or [0]),
+        "decimal_knife_edge_skipped": dknife, "decimal_exact_zone_rejections_judged_strictly": dexact,
+        "decimal_exact_zone_at_equality": dexacteq,
         "in_vivo_backtests": len(vtr), "in_vivo_order_events": sum(len(t["ev"]) for t in vtr),
-        "trace_events_checked_by_tlc": sum(len(t["ev"]) for t in traces), "rejected_traces": bad,
+        "trace_events_checked_by_tlc": sum(len(t["ev"]) for t in traces) + sum(len(t["ev"]) for t in dtr),
+        "rejected_traces": bad + dbad,
         "knife_edge_margin_comparisons_skipped": sum(len(v) for v in knife.values()),
         "fill_effects_and_special_cases_seen": kinds, "samples": samples,
         "rule": "R: one trace per transition of the small Futures.tla instance (shortest witness, prefix driven on the "
@@ -163,6 +194,13 @@ def run(ctx):
 
 def replay(ctx, rp):
     p = rp["payload"]
+    if p.get("fdec"):
+        from ..drivers import acct_fdec
+        tr = acct_fdec.replay(p)
+        verd = acct_fdec.validate([tr], ctx.scratch)[0]
+        print("replay verdict:", verd[1])
+        acct_fdec.report(ctx, PID, [tr], verd)
+        return
     if p.get("vivo"):
         from ..drivers import acct_vivo
         tr = acct_vivo.run_one(tuple([1] + list(p["vivo"])))
